@@ -34,6 +34,13 @@ Theorem C04_traceback_user_only :
   (forall f u inner, forallb user_frame (f :: u) = true -> clean KbdInterrupt (raw_kbd (f :: u) inner) = f :: u).
 Proof. exact (conj clean_ordinary (conj clean_syntax_compiled_here clean_kbd_user_prefix)). Qed.
 
+(** an exception raised at run time from the user's code, whatever its class (a SyntaxError / IndentationError / TabError
+    raised by exec, eval, compile, ast.parse, import or `raise` included; a KeyboardInterrupt raised by the program too):
+    the cleaned traceback is exactly the user's frames *)
+Theorem C04_runtime_exception_any_class : forall k u,
+  forallb user_frame u = true -> clean k (raw_ordinary u) = u.
+Proof. exact clean_runtime_any_class. Qed.
+
 Theorem C04_no_nextline_frames :
   (forall u, forallb user_frame u = true -> existsb nextline_frame (clean Ordinary (raw_ordinary u)) = false) /\
   (forall f u inner, forallb user_frame (f :: u) = true ->
@@ -68,5 +75,6 @@ Proof. vm_compute. repeat split; reflexivity. Qed.
 
 Print Assumptions C04_traceback_user_only.
 Print Assumptions C04_no_nextline_frames.
+Print Assumptions C04_runtime_exception_any_class.
 Print Assumptions C04_prompts_prefix_monotone.
 Print Assumptions C04_interrupt_at_call_refuted.
